@@ -43,9 +43,16 @@ namespace Index
     undecodable files with `parsed := none` and the marker text `"\u0000unreadable"`. -/
 def readable (v : Version) : Bool := v.text != "\u0000unreadable"
 
-/-- phase 2: analyse (no-cleanup path) every discovered, readable file. -/
+/-- phase 2: analyse (no-cleanup path) every discovered, readable file.  Files are identified by
+    their path below the workspace root `[]`; `scanPhase2At` is the same for a root that is not
+    the origin of the path space (used when a case also has files outside the workspace). -/
 def scanPhase2 (pfx : Path) (excluded : Path → Bool) (st : Index) : Index :=
   (st.disk.filter (fun p => discovered pfx excluded p.1 && readable p.2)).foldl
+    (fun st p => (analyze pfx false st p.1 p.2).1) st
+
+def scanPhase2At (root pfx : Path) (excluded : Path → Bool) (st : Index) : Index :=
+  (st.disk.filter (fun p => pathStartsWith p.1 root &&
+      discovered pfx excluded (p.1.drop root.length) && readable p.2)).foldl
     (fun st p => (analyze pfx false st p.1 p.2).1) st
 
 def isScanRoot (st : Index) (f : Path) : Bool :=
@@ -54,31 +61,35 @@ def isScanRoot (st : Index) (f : Path) : Bool :=
   st.editable.any (fun e => pathStartsWith f e.1) ||
   st.pluginFiles.contains f
 
-/-- one file of one iteration of the import scan: returns (new modules, modules to re-analyse as
-    plugin, state with plugin marks). -/
+/-- one resolved import target: optionally mark it as a plugin file (queueing it for re-analysis
+    when it is already cached), and queue it as a new module when it is neither processed nor
+    cached.  `acc` = (new modules, modules to re-analyse as plugin, state). -/
+def importStep (processed : List Path) (mark : Bool) (acc : List Path × List Path × Index)
+    (target : Path) : List Path × List Path × Index :=
+  let news := acc.1
+  let re := acc.2.1
+  let st := acc.2.2
+  let marking := mark && !st.pluginFiles.contains target
+  let st' := if marking then { st with pluginFiles := st.pluginFiles ++ [target] } else st
+  let re' := if marking && ahas st.cache target && !re.contains target then re ++ [target] else re
+  let news' := if !processed.contains target && !ahas st.cache target && !news.contains target
+    then news ++ [target] else news
+  (news', re', st')
+
+/-- one file of one iteration of the import scan: star imports propagate plugin status from a
+    plugin file, explicit imports do not, `pytest_plugins` entries do. -/
 def importScanFile (st : Index) (processed : List Path) (f : Path)
     (acc : List Path × List Path × Index) : List Path × List Path × Index :=
-  let (news, re, st) := acc
-  match st.content f with
+  match acc.2.2.content f with
   | some { parsed := some fr, .. } =>
-    let importerIsPlugin := st.pluginFiles.contains f
-    let step (mark : Bool) (acc : List Path × List Path × Index) (target : Path) :=
-      let (news, re, st) := acc
-      let (st, re) :=
-        if mark && !st.pluginFiles.contains target then
-          ({ st with pluginFiles := st.pluginFiles ++ [target] },
-           if ahas st.cache target && !re.contains target then re ++ [target] else re)
-        else (st, re)
-      let news := if !processed.contains target && !ahas st.cache target && !news.contains target
-        then news ++ [target] else news
-      (news, re, st)
+    let importerIsPlugin := acc.2.2.pluginFiles.contains f
     let acc := fr.imports.foldl (fun acc imp =>
       match acc.2.2.resolveModule imp.modulePath f with
-      | some t => step (importerIsPlugin && imp.isStar) acc t
-      | none => acc) (news, re, st)
+      | some t => importStep processed (importerIsPlugin && imp.isStar) acc t
+      | none => acc) acc
     fr.plugins.foldl (fun acc m =>
       match acc.2.2.resolveModule m f with
-      | some t => step importerIsPlugin acc t
+      | some t => importStep processed importerIsPlugin acc t
       | none => acc) acc
   | _ => acc
 
